@@ -237,4 +237,57 @@ impl<'i, 'd> QNameDeserializer<'i, 'd> {
     }
 //@end
 }
+// ---- C20: does a tag belong to the fields of a struct (the `Exclude` filter of a `$value` list)? ----
+/// verified shim for `s.iter().all(f)` (N2): true iff the test holds for every element
+pub fn all_ref<T, F: Fn(&T) -> bool>(s: &[T], f: F) -> (r: bool)
+    requires forall|x: &T| f.requires((x,)),
+    ensures r ==> forall|j: int| 0 <= j < s@.len() ==> f.ensures((&#[trigger] s@[j],), true),
+        !r ==> exists|j: int| 0 <= j < s@.len() && f.ensures((&#[trigger] s@[j],), false),
+{
+    let mut i = 0;
+    while i < s.len()
+        invariant i <= s@.len(), forall|x: &T| f.requires((x,)),
+            forall|j: int| 0 <= j < i ==> f.ensures((&#[trigger] s@[j],), true),
+        decreases s@.len() - i
+    {
+        if !f(&s[i]) { return false; }
+        i = i + 1;
+    }
+    true
+}
+/// std: `AsRef<str> for Cow<str>` hands out the string it holds
+pub assume_specification<'a, 'b, T: ?Sized + ToOwned> [<Cow<'a, T> as core::convert::AsRef<T>>::as_ref] (c: &'b Cow<'a, T>) -> (r: &'b T)
+    ensures r == cow_target(c);
+pub axiom fn axiom_cow_str_k()
+    ensures forall|c: &Cow<'_, str>| (#[trigger] cow_target(c))@ == c@;
+/// the tag is not one of the fields: its decoded LOCAL name differs from every field name
+pub open spec fn not_in_spec(fields: &'static [&'static str], name: Seq<u8>, d: Decoder) -> Result<bool, DeError> {
+    match spec_decode::<'static>(d, spec_local_name(name)) {
+        Ok(tag) => Ok(forall|j: int| 0 <= j < fields@.len() ==> (#[trigger] fields@[j])@ != tag@),
+        Err(e) => Err(DeError::InvalidXml(Error::Encoding(e))),
+    }
+}
+//@extract de::map::not_in | src/de/map.rs :: fn not_in | serves=C20 features=serialize n11=@decode
+//@rewrite fields.iter().all(|&field| field != tag.as_ref()) ==> all_ref(fields, |field: &&'static str| *field != tag.as_ref())
+////////////////////////////////////////////////////////////////////////////////////////////////////
+
+/// Check if tag `start` is included in the `fields` list. `decoder` is used to
+/// get a string representation of a tag.
+///
+/// Returns `true`, if `start` is not in the `fields` list and `false` otherwise.
+pub fn not_in(
+    fields: &'static [&'static str],
+    start: &BytesStart,
+    decoder: Decoder,
+) -> (r: Result<bool, DeError>)
+    requires start.name_len <= start.buf@.len()
+    // C20: a FUNCTION of the field names and of the tag's name: its decoded local name differs from every field name
+    ensures r == not_in_spec(fields, start.buf@.subrange(0, start.name_len as int), decoder)
+{
+    proof { axiom_cow_str_k(); }
+    let tag = match decoder.decode(start.local_name().into_inner()) { Ok(v__) => v__, Err(e__) => return Err(From::from(e__)) };
+
+    Ok(all_ref(fields, |field: &&'static str| -> (b: bool) ensures b == ((*field)@ != tag@) { *field != tag.as_ref() }))
+}
+//@end
 }
